@@ -6,7 +6,7 @@ import props
 V = os.path.dirname(os.path.dirname(os.path.abspath(__file__)))
 
 LEVEL = {
- "C01": ("proof", "Theorems (Coq, axiom-free): (1) the byte ranges pushed by the field splitter cut every non-empty record, for every non-empty literal delimiter (self-overlapping included), into exactly the leftmost non-overlapping fields; (2) for a one-byte delimiter and plain options (any bounds list, format text, fallbacks, -j, -r R) a record's output is exactly, per bound in request order, its fields joined by the (replacement) delimiter, the delimiter after every bound but the last only under -j/-r, then the EOL. Trim, -p, -g and multi-byte delimiters in the output loop are the executable model; C11/C12/C16 prove their value-blindness, index-safety and tiling. Model and code are compared on every run (general path and fast lane, debug and release)."),
+ "C01": ("proof", "Theorems (Coq, axiom-free) for every non-empty literal delimiter, self-overlapping ones included: the byte ranges of fill_with_fields_locations cut a record into the leftmost non-overlapping fields of the statement, and that cutting is unique; -g yields those fields minus the empty ones strictly inside; -p rewrites the record to those same fields joined by single delimiters and cutting it gives them back; -t removes whole copies of the delimiter at the chosen end and nothing else; -s drops exactly the records without a delimiter; the general path is trim, stage (compress / split plain or greedy), finish (-s, complement, output loop, EOL), and the staged fields are the fields of the statement for every combination of -p and -g; under plain options (one-byte delimiter) the whole output record is proved equal to the requested fields in request order with fillers, fallbacks, -j and -r. The output loop under -g/-p/multi-byte delimiters is the executable model (index-safe by C12), compared with the code on every run incl. small-alphabet collisions."),
  "C02": ("proof", "Theorem C02_fast_lane_equals_general_path: for every fast-eligible option set, every bounds list the parser can build and every input, the model of the fast lane and the model of the general path give the same stdout, status and completed records (early stop, fake end-of-line start, -s, trim, fallbacks included). Tied to the code by running both library entry points and the binary against the models, plus the pair oracle on the implementation."),
  "C03": ("proof", "Theorem C03_fixed_memory_equals_line_mode (Coq, axiom-free): for every option set -M accepts, every bounds list built from parsed bounds, and every input on whose records each closed range is wholly present or wholly absent, the model of -M gives exactly the stdout, status and completed records of the model of the same invocation without -M (empty records, empty first/last fields, final record without EOL included); the static part of the domain is proved to follow from -M's own eligibility test. Tied to the code by correspondence of both paths and by the pair oracle (-M vs no -M) on the implementation, incl. inputs straddling the 64 KiB buffer."),
  "C04": ("proof", "Theorem C04_segmentation_independence: for every -M option set, every input and every two segmentations into non-empty reads, the model writes the same bytes and ends with the same status; the side condition holds for every parsed bounds list. Tied to the code through a BufRead double serving prescribed segmentations (all segmentations of short inputs) and through a read(2) shim on the real binary."),
